@@ -9,7 +9,7 @@ package invocation
 //@
 //@ func (*Token).IsValidAt
 //@   requires t != nil
-//@   ensures [C04] spec: result == invValidAt(t, ti)
+//@   ensures [C04,C05] spec: result == invValidAt(t, ti)
 //@   ensures [C04] inside: (t.expiration == nil || inst(ti) < inst(*t.expiration)) ==> result
 //@   ensures [C04] outside: (t.expiration != nil && inst(ti) > inst(*t.expiration)) ==> !result
 //@   assigns [C20] nothing
@@ -50,3 +50,78 @@ package invocation
 //@           invariant cmd == (k == 0 ? t.command : delegations[k-1].command)
 //@           invariant iss == (k == 0 ? t.issuer : delegations[k-1].issuer)
 //@           decreases len(t.proof) - k
+//@
+//@ // ---- loading the proofs ----------------------------------------------------------------------
+//@ pure func loadsOK(t *Token, l delegation.Loader) bool =
+//@     forall i int :: 0 <= i && i < len(t.proof) ==> loadedErr(l, t.proof[i]) == nil
+//@ pure func isLoaded(t *Token, l delegation.Loader, ds []*delegation.Token) bool =
+//@     len(ds) == len(t.proof) && forall i int :: 0 <= i && i < len(ds) ==> ds[i] == loadedTok(l, t.proof[i]) && ds[i] != nil
+//@
+//@ func (*Token).loadProofs
+//@   requires t != nil && loader != nil
+//@   ensures [C01,C05] ok: (err == nil) == loadsOK(t, loader)
+//@   ensures [C01,C05] res: err == nil ==> isLoaded(t, loader, res)
+//@   assigns [C20] nothing
+//@   loop 0: invariant 0 <= k && k <= len(t.proof) && len(res) == len(t.proof) && fresh(res)
+//@           invariant forall i int :: 0 <= i && i < k ==> res[i] == loadedTok(loader, t.proof[i]) && loadedErr(loader, t.proof[i]) == nil && res[i] != nil
+//@           decreases len(t.proof) - k
+//@
+//@ // ---- policies ---------------------------------------------------------------------------------
+//@ pure func argsOK(ds []*delegation.Token, n ipld.Node) bool =
+//@     forall i int :: 0 <= i && i < len(ds) ==> policyOK(ds[i].policy, n)
+//@
+//@ func (*Token).verifyArgs
+//@   requires t != nil && arguments != nil
+//@   requires len(delegations) == len(t.proof)
+//@   requires forall i int :: 0 <= i && i < len(delegations) ==> delegations[i] != nil
+//@   requires forall i int, j int :: 0 <= i && i < len(delegations) && 0 <= j && j < len(delegations[i].policy) ==> delegations[i].policy[j] != nil
+//@   ensures [C03] sound: result == nil ==> argsNodeErr(arguments) == nil && argsOK(delegations, argsNode(arguments))
+//@   ensures [C05] complete: argsNodeErr(arguments) == nil && argsOK(delegations, argsNode(arguments)) ==> result == nil
+//@   assigns arguments.Keys
+//@   loop 0: invariant 0 <= k && k <= len(t.proof)
+//@           decreases len(t.proof) - k
+//@   loop 1: invariant 0 <= k && k <= len(t.proof) && fresh(policies)
+//@           invariant forall x int :: 0 <= x && x < len(policies) ==> policies[x] != nil
+//@           invariant (forall m int :: 0 <= m && m < len(delegations) ==> policyOK(delegations[m].policy, argsNode(arguments))) ==> policyOK(policies, argsNode(arguments))
+//@           invariant (exists m int, j int :: 0 <= m && m < k && 0 <= j && j < len(delegations[m].policy) && !passes(sem(delegations[m].policy[j], argsNode(arguments)))) ==> !policyOK(policies, argsNode(arguments))
+//@           decreases len(t.proof) - k
+//@
+//@ // ---- the whole check, stated over the loader ------------------------------------------------------
+//@ pure func ltok(t *Token, l delegation.Loader, i int) *delegation.Token = loadedTok(l, t.proof[i])
+//@ pure func linkOKL(t *Token, l delegation.Loader, i int) bool =
+//@     ltok(t, l, i).subject == t.subject
+//@  && ltok(t, l, i).audience == (i == 0 ? t.issuer : ltok(t, l, i-1).issuer)
+//@  && coversSpec(string(ltok(t, l, i).command), string(i == 0 ? t.command : ltok(t, l, i-1).command))
+//@ pure func chainOKL(t *Token, l delegation.Loader) bool =
+//@     len(t.proof) >= 1
+//@  && (forall i int :: 0 <= i && i < len(t.proof) ==> linkOKL(t, l, i))
+//@  && ltok(t, l, len(t.proof)-1).issuer == ltok(t, l, len(t.proof)-1).subject
+//@ pure func timeOKL(t *Token, l delegation.Loader, at time.Time) bool =
+//@     invValidAt(t, at) && forall i int :: 0 <= i && i < len(t.proof) ==> dlgValidAt(ltok(t, l, i), at)
+//@ pure func argsOKL(t *Token, l delegation.Loader, n ipld.Node) bool =
+//@     forall i int :: 0 <= i && i < len(t.proof) ==> policyOK(ltok(t, l, i).policy, n)
+//@ pure func allowedSpec(t *Token, l delegation.Loader, a *args.Args) bool =
+//@     loadsOK(t, l) && chainOKL(t, l) && timeOKL(t, l, theNow())
+//@  && argsNodeErr(a) == nil && argsOKL(t, l, argsNode(a))
+//@ // input validity: policies of loadable delegations hold no nil statement
+//@ pure func wfLoaded(t *Token, l delegation.Loader) bool =
+//@     forall i int, j int :: 0 <= i && i < len(t.proof) && loadedErr(l, t.proof[i]) == nil && 0 <= j && j < len(ltok(t, l, i).policy) ==> ltok(t, l, i).policy[j] != nil
+//@
+//@ func (*Token).executionAllowed
+//@   requires t != nil && loader != nil && arguments != nil && wfLoaded(t, loader)
+//@   ensures [C01,C02,C03,C04] sound: result == nil ==> allowedSpec(t, loader, arguments)
+//@   ensures [C05] complete: allowedSpec(t, loader, arguments) ==> result == nil
+//@   assigns arguments.Keys
+//@
+//@ func (*Token).ExecutionAllowed
+//@   requires t != nil && loader != nil && t.arguments != nil && wfLoaded(t, loader)
+//@   ensures [C01,C02,C03,C04] sound: result == nil ==> allowedSpec(t, loader, t.arguments)
+//@   ensures [C05] complete: allowedSpec(t, loader, t.arguments) ==> result == nil
+//@   assigns t.arguments.Keys
+//@
+//@ func (*Token).ExecutionAllowedWithArgsHook
+//@   requires t != nil && loader != nil && t.arguments != nil && hook != nil && wfLoaded(t, loader)
+//@   requires forall ro args.ReadOnly :: fnres1(hook, ro) == nil ==> fnres0(hook, ro) != nil
+//@   ensures [C03] hooked: result == nil ==> (forall ro args.ReadOnly :: ro.args == t.arguments ==> fnres1(hook, ro) == nil && allowedSpec(t, loader, fnres0(hook, ro)))
+//@   ensures [C05] complete: (forall ro args.ReadOnly :: ro.args == t.arguments ==> fnres1(hook, ro) == nil && allowedSpec(t, loader, fnres0(hook, ro))) ==> result == nil
+//@   assigns anything
